@@ -8,7 +8,7 @@ use crate::examples::fee_permissioned::FeeForwarder as Permissioned;
 use crate::examples::fee_permissionless::FeeForwarder as Permissionless;
 use crate::report::Report;
 use crate::rng::Rng;
-use crate::world::{invoke, tag, Fail, Inv, World};
+use crate::world::{Must, invoke, tag, Fail, Inv, World};
 use crate::Cfg;
 use soroban_sdk::{Address, Env, Symbol, Val, Vec as SVec};
 use std::collections::BTreeSet;
@@ -40,8 +40,8 @@ fn history(cfg: &Cfg, rep: &mut Report, permissioned: bool, h: u64, steps: usize
     let mut allowed: BTreeSet<usize> = BTreeSet::new();
     let mut target_calls: u32 = 0;
     rep.op(format!("deploy {kind} forwarder ledger={}", w.ledger()));
-    let bal = |t: &Address, a: &Address| -> i128 { invoke(e, t, "balance", args!(e, a.clone())).unwrap() };
-    let alw = |t: &Address, who: &Address| -> i128 { invoke(e, t, "allowance", args!(e, who.clone(), fwd.clone())).unwrap() };
+    let bal = |t: &Address, a: &Address| -> i128 { invoke(e, t, "balance", args!(e, a.clone())).must("balance") };
+    let alw = |t: &Address, who: &Address| -> i128 { invoke(e, t, "allowance", args!(e, who.clone(), fwd.clone())).must("allowance") };
     for step in 0..steps {
         if rng.chance(1, 10) {
             let t = w.ledger() + 1 + rng.below(20) as u32;
